@@ -20,11 +20,11 @@ import (
 var budgets = map[string]map[string]int{
 	"C07": {"quick": 60000, "thorough": 1500000},
 	"C06": {"quick": 20000, "thorough": 400000},
-	"C03": {"quick": 2500, "thorough": 60000},
-	"C04": {"quick": 1500, "thorough": 40000},
+	"C03": {"quick": 3000, "thorough": 60000},
+	"C04": {"quick": 1000, "thorough": 40000},
 	"C05": {"quick": 2500, "thorough": 60000},
-	"C11": {"quick": 2000, "thorough": 40000},
-	"C17": {"quick": 8000, "thorough": 0}, // thorough: the whole cell grid, set in init
+	"C11": {"quick": 1500, "thorough": 40000},
+	"C17": {"quick": 30000, "thorough": 0}, // thorough: the whole cell grid, set in init
 	"C19": {"quick": 1200, "thorough": 30000},
 }
 
@@ -350,6 +350,7 @@ func runDriver(prop, tier string, seed int64, from, count, nworkers int, verif, 
 	}
 	firstByFP := map[string]found{}
 	foreignByFP := map[string]int{}
+	foreignDetail := map[string]string{}
 	var harnessErrs []string
 	p := &pool{n: nworkers, reqTO: 90 * time.Second, recycleN: 4000}
 	done, truncated, inconclusive := p.runAll(reqs, func(i int, o *Outcome, _ []string) {
@@ -373,6 +374,9 @@ func runDriver(prop, tier string, seed int64, from, count, nworkers int, verif, 
 		}
 		for _, v := range o.Foreign {
 			foreignByFP[v.Fingerprint]++
+			if _, ok := foreignDetail[v.Fingerprint]; !ok {
+				foreignDetail[v.Fingerprint] = fmt.Sprintf("index %d: %s", reqs[i].Index, v.Detail)
+			}
 		}
 	}, deadline)
 
@@ -429,6 +433,9 @@ func runDriver(prop, tier string, seed int64, from, count, nworkers int, verif, 
 	}
 	for _, fp := range sortedKeys(foreignByFP) {
 		fmt.Fprintf(os.Stderr, "note: foreign violation seen on the way (not reported under %s): %s ×%d\n", prop, fp, foreignByFP[fp])
+		if os.Getenv("VERIF_SHOW_FOREIGN") != "" {
+			fmt.Fprintf(os.Stderr, "      %s\n", shortText(foreignDetail[fp], 1500))
+		}
 	}
 
 	wall := time.Since(start).Seconds()
